@@ -31,6 +31,8 @@ QUICK = [('Calls_req_quick.cfg', 'all kinds, <=2 inputs x 12 required/default de
          ('Calls_secrets.cfg', 'reusable workflow, <=2 secrets x required x supplied/omitted/extra/inherit'),
          ('Calls_outputs.cfg', 'all kinds, <=2 outputs x references declared/undeclared/case-flipped, skip_inputs/skip_outputs'),
          ('Calls_names.cfg', 'actions declaring inputs named args / entrypoint'),
+         ('Calls_wfreq.cfg', 'reusable workflow, one input and a secret x every spelling of required: (true True TRUE false '
+                             'False yes on y quoted-true 1) x default absent/value x supplied/omitted/inherit'),
          ('Calls_values.cfg', 'reusable workflow, one input of type string/number/boolean/untyped x every literal value (scalar style '
                               'plain/single/double x text class) and placeholder kind'),
          ('Calls_uses.cfg', 'local action in a sub-directory and at the repository root x every spelling of `uses:` that denotes '
@@ -39,6 +41,7 @@ QUICK = [('Calls_req_quick.cfg', 'all kinds, <=2 inputs x 12 required/default de
 THOROUGH = [('Calls_req3.cfg', 'all kinds, <=3 inputs x 12 declarations x supplied(case-flipped)/omitted'),
             ('Calls_req_spell.cfg', 'all kinds, <=2 inputs, every declared spelling x every call spelling'),
             ('Calls_types.cfg', 'reusable workflow, <=2 typed inputs (required/default variants) x 11 value kinds'),
+            ('Calls_wfreq2.cfg', 'reusable workflow, <=2 inputs and a secret x every spelling of required: x default absent/value'),
             ('Calls_values2.cfg', 'reusable workflow, <=2 inputs x 4 declared types x 37 value kinds (styles x classes, placeholders)')]
 
 
